@@ -24,6 +24,9 @@ def tasks(tier):
             for k3 in (0, 1):
                 ts.append(Task('verifHarness_C14_deadlines', [k1, k2, k3, 0], pkg='pkg/timednetconn'))
     ts.append(Task('verifHarness_C14_deadlines', [0, 1, 0, 1], pkg='pkg/timednetconn'))
+    for kind in (0, 1):
+        for ek in (0, 1, 2, 3):
+            ts.append(Task('verifHarness_C14_outcome', [kind, ek], pkg='pkg/timednetconn'))
     for fails in range(4):
         for second in (0, 1):
             ts.append(Task('verifHarness_C14_serial', [fails, second]))
@@ -34,6 +37,9 @@ def tasks(tier):
     for udp in (0, 1):
         ts.append(Task('verifHarness_C14_server', [udp]))
     ts.append(Task('verifHarness_C14_terminated', []))
+    for kind in (0, 1, 2):
+        for second in (0, 1):
+            ts.append(Task('verifHarness_C14_backoff_terminated', [kind, second]))
     for busy in (0, 1):
         ts.append(Task('verifHarness_C14_read_failure', [busy], {'x25_uf': True}))
     for one in (0, 1):
@@ -43,14 +49,16 @@ def tasks(tier):
 
 
 def required_reach(tier):
-    return ['C14/T1', 'C14/T2s', 'C14/T2c', 'C14/T3', 'C14/T4', 'C14/L2']
+    return ['C14/T1', 'C14/T2s', 'C14/T2c', 'C14/T3', 'C14/T4', 'C14/L2', 'C14/T2t', 'C14/T2b', 'C14/T1p']
 
 
 def bounds(tier):
     return {'T1_deadlines': 'every sequence of 3 Read/Write calls; idle and write timeouts arbitrary in [0, 2^50) ns; clock readings arbitrary '
                             'non-decreasing; a failing Set*Deadline',
+            'T1_outcome': 'Read and Write of the wrapper return the wrapped call\'s byte count (0..8, symbolic) and error unchanged: nil, a generic error, os.ErrDeadlineExceeded, a wrapped os.ErrDeadlineExceeded',
             'T2_reconnect': 'serial, TCP client and UDP client provide(): 0..3 consecutive failed attempts then a success, first and later '
                             'provide() calls; timers are treated as fired and their durations logged; closed endpoint',
+            'T2_backoff_close': 'serial / TCP client / UDP client provide() with every attempt failing and reconnect timers that have not elapsed: closing the endpoint ends provide() with errTerminated (one schedule)',
             'T4_server': 'TCP and UDP server provide(): two accepted peers then an accept error; idle, write and read timeouts symbolic', 'T2_long_outage': 'TCP client with 5, 6 and 8 failed attempts (virtual time: the reconnect waits add up past the 10 s connect timeout)',
             'T3_provider': 'scripted endpoint handing out 3 connections then terminating; one-at-a-time or not; channels reported done or not',
             'NOT DECIDED': 'that the close event carries the reader error and that an expired deadline ends the channel (both through '
